@@ -46,12 +46,12 @@ def run(chk):
     for fn in ("jobmap", "jobmap_sge"):
         f = prog.func(f"{JOB}:{fn}")
         chk.analysed(f)
-        r1_subset(chk, f)
-        r2_narrowing(chk, f)
-        r3_reuse(chk, f)
-        r5_destination(chk, f)
-        r6_sessions(chk, f)
-        r7_r8_preparation(chk, f)
+        chk.call(r1_subset, chk, f)
+        chk.call(r2_narrowing, chk, f)
+        chk.call(r3_reuse, chk, f)
+        chk.call(r5_destination, chk, f)
+        chk.call(r6_sessions, chk, f)
+        chk.call(r7_r8_preparation, chk, f)
     rl = prog.func("molli.pipeline.runner:run_local")
     c17.r4_recorded(chk, rl, "C18.R4")
 
